@@ -119,7 +119,8 @@ theorem tr_invisible_before_commit {cfg : Cfg} (hg : cfg.Good) {s : St} {d : Dis
     ∃ r, recoverR cfg d' = .ok r ∧ (∀ x ∈ r.grps, x.fin ≤ g.seq) ∧ ∀ e ∈ g.ents, e ∉ r.entries := by
   obtain ⟨ch, rfl⟩ := hi
   have hinv : Inv cfg s d := inv_reachable hg hr
-  obtain ⟨r, hrec, hgood, hb⟩ := hinv.tr_invisible hg.noTrace htr hjob ch
+  have hl : s.limbo = none := limbo_none_reachable hg hr
+  obtain ⟨r, hrec, hgood, hb⟩ := hinv.tr_invisible hg.noTrace htr hjob hl ch
   refine ⟨r, hrec, hb, fun e he her => ?_⟩
   obtain ⟨x, hx, hex⟩ := List.mem_flatMap.1 her
   have h1 := ents_seq_range (hw x (hgood.only x hx)) hex
@@ -147,13 +148,13 @@ theorem discard_removes_tables {cfg : Cfg} {s : St} {d : Disk} {s' : St} {d' : D
 
 /-- … and none of them was ever live in an admissible view of the manifest `CURRENT` names -/
 theorem discard_tables_never_live {cfg : Cfg} {s : St} {d : Disk} (h : Inv cfg s d) {j : Job} (hj : s.job = some j)
-    (hbc : j.pc.beforeCommit = true) :
+    (hbc : j.pc.beforeCommit = true) (hl : s.limbo = none) :
     AllViews cfg d fun v => ∀ o ∈ j.outs, o.1 ∉ v.live := by
   intro mf hc k hk v hv o ho hlive
   have hok := h.job
   rw [hj] at hok
   have hf := holds_some (holds_some ((hok : JobOK cfg s d j).fresh.2 hbc) hc k hk) hv
-  have h1 := hf.1 o ho
+  have h1 := (hf.1 o ho).resolve_right (fun hx => by have := hx.2.1; rw [hl] at this; cases this)
   have h2 := ((h.disk.allViews mf hc k hk v hv).tables o.1 hlive).1
   omega
 
@@ -170,6 +171,7 @@ theorem tr_discard_no_residue {cfg : Cfg} (hg : cfg.Good) {s : St} {d : Disk}
     (AllViews cfg d' fun v => ∀ o ∈ j.outs, o.1 ∉ v.live) ∧
     ∀ d'', IsCrashImage d' d'' → ∃ r, recoverR cfg d'' = .ok r ∧ g ∉ r.grps ∧ ∀ e ∈ g.ents, e ∉ r.entries := by
   have hinv : Inv cfg s d := inv_reachable hg hr
+  have hl : s.limbo = none := limbo_none_reachable hg hr
   have hs' : trDiscardJob cfg s d = some (s', d') := by
     simp only [step, hj, reduceCtorEq, if_false] at hs
     exact hs
@@ -181,7 +183,7 @@ theorem tr_discard_no_residue {cfg : Cfg} (hg : cfg.Good) {s : St} {d : Disk}
     · assumption
     · cases hs'
   have hbc : j.pc.beforeCommit = true := by rw [hpc.2]; rfl
-  have hinv' : Inv cfg s' d' := inv_trDiscardJob hinv hs'
+  have hinv' : Inv cfg s' d' := inv_trDiscardJob hinv (Or.inl hl) hs'
   have hcur : curManifest d' = curManifest d := by
     unfold trDiscardJob at hs'
     rw [htr, hj] at hs'
@@ -194,7 +196,7 @@ theorem tr_discard_no_residue {cfg : Cfg} (hg : cfg.Good) {s : St} {d : Disk}
   refine ⟨hgone, ?_, ?_⟩
   · intro mf hc k hk v hv
     rw [hcur] at hc
-    exact discard_tables_never_live hinv hj hbc mf hc k hk v hv
+    exact discard_tables_never_live hinv hj hbc hl mf hc k hk v hv
   · -- the transaction's group is the job's only output; it was pending, it is `failed` now: if a crash image had
     -- it, it would be in a live table or in a journal, but everything there ends below it
     rintro d'' ⟨ch, rfl⟩
@@ -216,12 +218,12 @@ theorem tr_discard_no_residue {cfg : Cfg} (hg : cfg.Good) {s : St} {d : Disk}
       rw [htr] at this
       exact this.2.2.2.1
     -- everything on the old storage ends at or below `db.seq`; the new storage holds no more than the old one
-    have hb := hinv.tr_storage_bound htr (by rw [hj]; exact hbc)
+    have hb := hinv.tr_storage_bound htr (by rw [hj]; exact hbc) hl
     have hd := hinv'.disk.restrict_issued (fun x => decide (x.fin ≤ s.seq + 1)) (by
       intro mf hc k hk v hv
       rw [hcur] at hc
       obtain ⟨b1, b2⟩ := hb mf hc k hk v hv
-      have hnl := discard_tables_never_live hinv hj hbc mf hc k hk v hv
+      have hnl := discard_tables_never_live hinv hj hbc hl mf hc k hk v hv
       have hjs : d'.journals = d.journals := by
         unfold trDiscardJob at hs'
         rw [htr, hj] at hs'
